@@ -150,5 +150,36 @@ def run(R):
                         [later_folds[0].loc()])
         else:
             R.ok("C20.verbatim", "tokenize", "literal characters pushed unmodified; no case folding on the path to the literal branch", c.loc())
+    # ---- comments are invisible: nothing is emitted or accumulated while inside a `--` comment
+    R.rule("C20.comment", "inside a `--` comment no token is emitted and no literal / identifier text is accumulated: every token emission and "
+                          "every character push of the tokenizer loop is dominated by the `not in a comment` edge")
+    cl = [l for l, d in enumerate(tf.locals) if d.get("name") == "is_comment"]
+    csw = []
+    for sw in sorted(tf.reach):
+        t = tf.blocks[sw]["term"]
+        if t["k"] == "switch" and t["discr"].get("ty") == "bool" and t["discr"]["k"] in ("copy", "move"):
+            l = t["discr"]["pl"]["l"]
+            src = [s2["rv"]["op"]["pl"]["l"] for _, s2 in tf.stmts() if s2["k"] == "assign" and s2["pl"]["l"] == l and not s2["pl"]["p"]
+                   and s2["rv"]["k"] == "use" and s2["rv"]["op"]["k"] in ("copy", "move")]
+            if l in cl or any(x in cl for x in src):
+                csw.append(sw)
+    if len(csw) != 1:
+        R.violation("C20.comment", "tokenize|comment-test", "the tokenizer loop does not test its comment state exactly once per character "
+                                                            "(found %d tests)" % len(csw), [tf.loc()])
+    else:
+        t = tf.blocks[csw[0]]["term"]
+        not_comment = [b for v, b in t["targets"] if v == "0"][0]
+        emits = [c for c in tf.calls if re.search(r"tokenize::.*::add$|TokenizerState.*::add$", short(c.name))] + \
+                [c for c in tf.calls if short(c.name) in ("alloc::string::String::push", "alloc::string::String::push_str")]
+        loop = PR.loop_of(tf, csw[0])
+        bad = [c for c in emits if loop and c.bb in loop[1] and not PR.dominated_by_edge(tf, c.bb, csw[0], not_comment)]
+        if not emits:
+            R.violation("C20.comment", "tokenize|no-emission", "no token emission found in tokenize", [tf.loc()])
+        elif bad:
+            R.violation("C20.comment", "tokenize|active-in-comment",
+                        "%s at %s runs before / without the comment test: text inside a `--` comment (e.g. an apostrophe) changes the token stream"
+                        % (short(bad[0].name).split("::")[-1], bad[0].loc()), [bad[0].loc()])
+        else:
+            R.ok("C20.comment", "tokenize", "%d emissions / pushes all behind the `not in a comment` edge" % len(emits), tf.loc(csw[0]))
     R.assume("pairs of texts are not compared; whitespace/comment handling is covered only through the absence of location data and the "
              "operator-fusion rule of C13")
